@@ -445,7 +445,7 @@ impl Exec {
                     break;
                 }
             }
-            if expiry != entry.deadline { field_failure = Some(Failure::new(blame, &tag("expiry-mismatch"), format!("key {} has expiry {:?} but should have {:?}", k, expiry, entry.deadline))); break; }
+            if expiry != entry.deadline { field_failure = Some(Failure::new(blame, &tag("expiry-mismatch"), format!("key {} has expiry {:?} but should have {:?}", k, expiry, entry.deadline)).with_also(vec!["C09".to_string(), "C08".to_string()])); break; }
             if soft_deleted != entry.soft_deleted { field_failure = Some(Failure::new(blame, &tag("soft-delete-mismatch"), format!("key {} soft_deleted = {} but should be {}", k, soft_deleted, entry.soft_deleted))); break; }
         }
         if let Some(failure) = field_failure { return Err(failure); }
@@ -852,7 +852,12 @@ impl Exec {
                     let peek = self.cache.verif_peek(&key);
                     match peek {
                         None => return Err(Failure::new("C08", "C08/in-place/entry-vanished", format!("after {} the key is not in the store", what))),
-                        Some((_, expiry, _)) => ensure!(expiry.map(since_epoch) == expected_deadline, "C08", "C08/in-place/expiry", "after {} returned the expiry is {:?}, expected {:?}", what, expiry.map(since_epoch), expected_deadline),
+                        Some((_, expiry, _)) => {
+                            if expiry.map(since_epoch) != expected_deadline {
+                                // the deadline a key ends up with is also what C09 is about
+                                return Err(Failure::new("C08", "C08/in-place/expiry", format!("after {} returned the expiry is {:?}, expected {:?}", what, expiry.map(since_epoch), expected_deadline)).with_also(vec!["C09".to_string()]));
+                            }
+                        }
                     }
                     if self.at_deadline(k) {
                         let got = self.call("get", |cache| cache.get(&key))?;
